@@ -278,8 +278,15 @@ func worker(tb []byte, progress func()) []byte {
 	n := int(r.u32())
 	w := &wr{}
 	w.u32(uint32(n))
+	lastProg := time.Now()
+	throttled := func() {
+		if time.Since(lastProg) > 2*time.Second {
+			lastProg = time.Now()
+			progress()
+		}
+	}
 	for i := 0; i < n; i++ {
-		progress()
+		throttled()
 		var s taskState
 		s.id = r.u32()
 		s.dev = r.u8()
@@ -291,7 +298,7 @@ func worker(tb []byte, progress func()) []byte {
 		}
 		res := stateRes{id: s.id, status: stSkipped}
 		if !x.stop() {
-			res = x.expand(&s, int32(-(i + 1)), progress)
+			res = x.expand(&s, int32(-(i + 1)), throttled)
 		}
 		w.u32(res.id)
 		w.u8(res.status)
